@@ -255,6 +255,12 @@ class USBInTransferManager(Elaboratable):
                         read_stream_ended  .eq(0)
                     ]
 
+                    # If our PID sequence is being reset in this very cycle, the reset must win over the
+                    # toggle above. We're entering WAIT_TO_SEND, which holds the already-toggled PID; so load
+                    # the reset value directly (as WAIT_TO_SEND does).
+                    with m.If(self.reset_sequence):
+                        m.d.usb += self.data_pid.eq(self.start_with_data1)
+
 
             # WAIT_TO_SEND -- we now have at least a buffer full of data to send; we'll
             # need to wait for an IN token to send it.
